@@ -236,6 +236,7 @@ fn check_scalar(op: Op, kind: u8) {
     kani::cover!(k < 0);
 }
 
+// EXACT-UNWIND: the only loops iterate over the harness's own 2-element arrays of bounds; the code under test is loop-free and every input ranges over its whole type
 macro_rules! scalar_harnesses {
     ($($name:ident: $op:expr, $kind:expr;)*) => { $( #[kani::proof] #[kani::unwind(4)] fn $name() { check_scalar($op, $kind); } )* };
 }
@@ -281,6 +282,7 @@ fn check_binary(sub: bool, ka: u8, kb: u8) {
     }
     kani::cover!(true);
 }
+// EXACT-UNWIND: the only loops iterate over the harness's own 2-element arrays of bounds; the code under test is loop-free and every input ranges over its whole type
 macro_rules! binary_harnesses {
     ($($name:ident: $sub:expr, $ka:expr, $kb:expr;)*) => { $( #[kani::proof] #[kani::unwind(4)] fn $name() { check_binary($sub, $ka, $kb); } )* };
 }
@@ -853,6 +855,7 @@ fn check_scalar_i16(op: Op, kind: u8) {
     kani::cover!(k > 0);
     kani::cover!(k < 0);
 }
+// EXACT-UNWIND: the only loops iterate over the harness's own 2-element arrays of bounds; the code under test is loop-free and every input ranges over its whole type
 macro_rules! scalar16_harnesses {
     ($($name:ident: $op:expr, $kind:expr;)*) => { $( #[kani::proof] #[kani::unwind(4)] fn $name() { check_scalar_i16($op, $kind); } )* };
 }
